@@ -55,7 +55,11 @@ class Walker:
             return UNKNOWN
         p = op[1]
         if not p[1]:
-            return store.get(p[0], UNKNOWN)
+            v = store.get(p[0], UNKNOWN)
+            if v is UNKNOWN and pkey(p) in self.variant_of:
+                # an assumption about the variant held by this local: visible to code that reads it through a reference
+                return ('agg', 'assumed', self.variant_of[pkey(p)], [])
+            return v
         # a place assumed to hold a field-less variant (e.g. `self.comp` is None) reads as that variant
         if self.variant_of.get(pkey(p)) == 'None':
             return ('agg', 'std::option::Option', 'None', [])
